@@ -1,5 +1,6 @@
 """C03 statement objects are immutable values; compilation is deterministic - Generative.tla (DESIGN 3.13, 4 C03)."""
 import random
+import re
 from concurrent.futures import ThreadPoolExecutor
 
 from engine import graph, tlc
@@ -31,18 +32,20 @@ METHODS = {
             "options2"],
     "query": ["where", "wherein", "join", "outerjoin", "order", "group", "limit", "offset", "distinct", "only", "addcol", "options", "options2",
               "execopt"],
-    "insert": ["values", "values2", "returning", "returning2", "prefix", "execopt"],
-    "update": ["where", "wherein", "values", "values2", "returning", "returning2", "prefix", "execopt"],
-    "delete": ["where", "wherein", "returning", "returning2", "prefix", "execopt"],
+    "compound": ["order", "order2", "group", "limit", "offset", "execopt"],
+    "insert": ["values", "values2", "mvalues", "mvalues2", "returning", "returning2", "prefix", "execopt"],
+    "update": ["where", "wherein", "values", "values2", "returning", "returning2", "prefix", "execopt", "dialectopt", "dialectopt2"],
+    "delete": ["where", "wherein", "returning", "returning2", "prefix", "execopt", "dialectopt", "dialectopt2"],
 }
-HOWS = {"select": ["clone", "copy", "deepclone", "pickle"], "orm": ["clone", "copy", "deepclone", "pickle"], "query": ["copy", "clone"],
+KINDS = ["select", "compound", "orm", "query", "insert", "update", "delete"]
+HOWS = {"select": ["clone", "copy", "deepclone", "pickle"], "compound": ["clone", "copy", "deepclone", "adapt", "pickle"], "orm": ["clone", "copy", "deepclone", "pickle"], "query": ["copy", "clone"],
         "insert": ["clone", "copy", "deepclone", "pickle"], "update": ["clone", "copy", "deepclone", "pickle"],
         "delete": ["clone", "copy", "deepclone", "pickle"]}
 
 
-def consts(kind, methods, hows, dialects, maxnodes, depth, faulty="none", repeat=1):
+def consts(kind, methods, hows, dialects, maxnodes, depth, faulty="none", repeat=1, pre=(), memos=False):
     return dict(Kind=q(kind), Methods={q(m) for m in methods}, Hows={q(h) for h in hows}, Dialects={q(d) for d in dialects},
-                MaxNodes=maxnodes, MaxRepeat=repeat, MaxDepth=depth, Faulty=q(faulty))
+                MaxNodes=maxnodes, MaxRepeat=repeat, MaxDepth=depth, Faulty=q(faulty), Pre={q(m) for m in pre}, Memos=memos)
 
 
 def _dump(args):
@@ -52,7 +55,7 @@ def _dump(args):
 
 def make_plans(chk, rng):
     """(kind, methods, copy operations, dialects of the first compilation, MaxNodes, MaxDepth, MaxRepeat) per TLC run"""
-    kinds = ["select", "orm", "query", "insert", "update", "delete"]
+    kinds = list(KINDS)
     plans = []
     # "wide" runs: EVERY generative method of the kind, shallow trees (parent, child, grandchild or sibling), so that
     # each method is derived from a compiled and from a not yet compiled parent in every run whatever the seed
@@ -76,14 +79,58 @@ def make_plans(chk, rng):
         # deeper trees with repeated methods
         for kind in rng.sample(kinds, 2):
             plans.append((kind, rng.sample(METHODS[kind], 2), [], rng.sample(DIALECTS, 1), 5, 7, 2))
-    return plans
+    return [p + ((), False) for p in plans] + prestep_plans(chk, rng)
+
+
+def prestep_plans(chk, rng):
+    """"memoise or deep-clone the parent first, then derive": the root already carries state (Pre), Memo(n) reads the memoized attributes
+    of a node without compiling it, Copy(n, deepclone | adapt) clones it through cloned_traverse / a ClauseAdapter; <= 3 nodes.
+    The plans are fixed (every run reaches these histories), the seed only picks the clone operation and two extra methods."""
+    deep = ["deepclone", "adapt"]
+    h = lambda i: [deep[(chk.seed + i) % 2]]     # noqa: E731
+    sel_extra = rng.sample([m for m in METHODS["select"] if m not in ("where", "group", "order", "addcol")], 2)
+    P = [
+        ("update", ["dialectopt", "dialectopt2", "where", "values2"], h(0), ["mysql"], 3, 6, 1, ("values",), True),
+        ("delete", ["dialectopt", "dialectopt2", "returning", "returning2"], h(1), ["mysql"], 3, 6, 1, ("where",), True),
+        ("insert", ["mvalues2", "returning", "prefix"], h(0), [rng.choice(DIALECTS)], 3, 6, 1, ("mvalues",), True),
+        ("insert", ["values2", "returning2", "execopt"], h(1), [rng.choice(DIALECTS)], 3, 6, 1, ("values", "returning"), True),
+        ("compound", ["order2", "group", "limit", "execopt"], h(0), [rng.choice(DIALECTS)], 3, 6, 1, ("order",), True),
+        ("select", ["group", "order", "addcol"] + sel_extra, h(1), [rng.choice(DIALECTS)], 3, 6, 1, ("where",), True),
+    ]
+    if not chk.quick:
+        P += [
+            ("update", ["values2", "returning", "returning2", "wherein"], h(1), [rng.choice(DIALECTS)], 3, 6, 1, ("values", "where"), True),
+            ("compound", ["order2", "limit", "offset", "execopt"], h(1), [rng.choice(DIALECTS)], 3, 6, 1, ("order", "group"), True),
+            ("insert", ["mvalues2", "returning2", "prefix", "execopt"], h(1), [rng.choice(DIALECTS)], 3, 6, 1, ("mvalues", "returning"), True),
+            ("orm", ["where", "order", "group", "options"], ["deepclone"], [rng.choice(DIALECTS)], 3, 6, 1, ("join",), True),
+        ]
+    return P
+
+
+TAG = re.compile(r"^\[([^\]]*)\] ")
+
+
+def signature(kind, m):
+    """flat signature of a replay mismatch: the action + the structured tag the driver puts in front of the text"""
+    a = m["act"] if isinstance(m["act"], dict) else {"a": m["act"]}
+    sig = {"spec": "Generative", "action": a.get("a"), "kind": "conformance", "stmt_kind": kind, "x": a.get("x")}
+    text = m["mismatch"]
+    if text.startswith("drain: "):
+        text = text[7:]
+    t = TAG.match(text)
+    if t:
+        for k, v in re.findall(r"(\w+)=(\S+)", t.group(1)):
+            sig[k] = {"True": True, "False": False}.get(v, v)
+    return sig
 
 
 def selftest(chk):
     out = {}
     for faulty, expect in (("inplace", ("ValueIsDescr", "Immutable", "HeapAppendOnly")), ("self", ("ValueIsDescr", "Immutable")),
-                           ("keepmemo", ("Deterministic", "CompileReturnsMeaning"))):
-        cfgt = tlc.cfg(constants=consts("select", ["where", "join", "only"], ["clone"], ["sqlite"], 3, 6, faulty), invariants=INVS,
+                           ("keepmemo", ("Deterministic", "CompileReturnsMeaning")),
+                           ("clonelist", ("ValueIsDescr", "Immutable", "HeapAppendOnly", "CopiesEqual"))):
+        cfgt = tlc.cfg(constants=consts("select", ["where", "join", "only"], ["deepclone" if faulty == "clonelist" else "clone"], ["sqlite"], 3, 6,
+                                        faulty, pre=("order",), memos=True), invariants=INVS,
                        properties=PROPS, view="View", constraints=["Depth"])
         r = tlc.run("Generative", cfgt, chk.work + "/faulty", workers=2, timeout=600, keep_stdout=False, heap="2g")
         out[faulty] = r.violated
@@ -97,15 +144,15 @@ def main(chk):
     rejected = selftest(chk)
     plans = make_plans(chk, rng)
     jobs = []
-    for i, (kind, ms, hows, fd, maxn, depth, rep) in enumerate(plans):
-        cfgt = tlc.cfg(constants=consts(kind, ms, hows, fd, maxn, depth, repeat=rep), init="InitEmit", invariants=INVS, properties=PROPS,
+    for i, (kind, ms, hows, fd, maxn, depth, rep, pre, memos) in enumerate(plans):
+        cfgt = tlc.cfg(constants=consts(kind, ms, hows, fd, maxn, depth, repeat=rep, pre=pre, memos=memos), init="InitEmit", invariants=INVS, properties=PROPS,
                        view="View", action_constraints=["Emit"], constraints=["Depth"])
         jobs.append((cfgt, chk.work + "/graph%d" % i))
     with ThreadPoolExecutor(max(1, min(len(jobs), tlc.NPROC))) as ex:
         graphs = list(ex.map(_dump, jobs))
     states = trans = nwalks = steps_total = nontriv = 0
     runs, samples, cov = [], [], {}
-    for (kind, ms, hows, fd, maxn, depth, rep), g in zip(plans, graphs):
+    for (kind, ms, hows, fd, maxn, depth, rep, pre, memos), g in zip(plans, graphs):
         r = g.tlc
         if r.violated:
             chk.violation({"spec": "Generative", "action": "TLC", "invariant": r.violated, "stmt_kind": kind},
@@ -117,8 +164,12 @@ def main(chk):
             cov[kind + ":" + key] = cov.get(kind + ":" + key, 0) + 1
             # non-trivial: a derivation or copy whose source (or an ancestor / sibling) has been compiled already, or the
             # compilation of a node that has descendants
-            if act["a"] in ("Derive", "Copy") and any(nd[3] for nd in g.states[fk]):
+            if act["a"] in ("Derive", "Copy") and any(nd[3] or nd[4] for nd in g.states[fk]):
                 nontriv += 1
+            if act["a"] == "Derive" and g.states[fk][act["n"] - 1][1] in ("deepclone", "adapt"):
+                cov["derive_from_deep_clone"] = cov.get("derive_from_deep_clone", 0) + 1
+            if act["a"] == "Derive" and g.states[fk][act["n"] - 1][4] and not g.states[fk][act["n"] - 1][3]:
+                cov["derive_from_memoized_uncompiled"] = cov.get("derive_from_memoized_uncompiled", 0) + 1
             elif act["a"] == "Compile" and any(nd[0] == act["n"] for nd in g.states[fk]):
                 nontriv += 1
         walks, plan = graph.plan_tours(g, depth, rng)
@@ -127,15 +178,17 @@ def main(chk):
                                    nproc=16)
         for m in mism:
             a = m["act"] if isinstance(m["act"], dict) else {"a": m["act"]}
-            chk.violation({"spec": "Generative", "action": a.get("a"), "kind": "conformance", "stmt_kind": kind, "x": a.get("x")},
-                          "real %s statement diverges from Generative.tla: %s" % (kind, m["mismatch"]), m)
+            chk.violation(signature(kind, m), "real %s statement diverges from Generative.tla: %s" % (kind, m["mismatch"]), m)
         nwalks += len(walks) + len(extra)
         steps_total += steps
-        runs.append(dict(kind=kind, methods=ms, hows=hows, first_compile_dialects=fd, max_nodes=maxn, distinct=r.distinct,
+        runs.append(dict(kind=kind, methods=ms, pre_applied=list(pre), memo_action=memos, hows=hows, first_compile_dialects=fd, max_nodes=maxn, distinct=r.distinct,
                          generated=r.generated, edges=len(g.edges), plan=plan, wall_s=round(r.wall, 1)))
         w = max(walks, key=lambda w_: len({(g.edges[ei][1]["a"], g.edges[ei][1]["x"]) for ei in w_}) + len(w_) / 100.0)
         samples.append(dict(kind=kind, walk=["%s(%d,%s)" % (g.edges[ei][1]["a"], g.edges[ei][1]["n"], g.edges[ei][1]["x"]) for ei in w]))
-    for kind in ("select", "orm", "query", "insert", "update", "delete"):
+    for need in ("derive_from_deep_clone", "derive_from_memoized_uncompiled"):
+        if not cov.get(need):
+            chk.machinery("vacuous: no edge of class %s" % need)
+    for kind in KINDS:
         for need in ("Derive", "Copy", "Compile"):      # (every kind has at least one run with a copy operation)
             if not any(k.startswith(kind + ":" + need) for k in cov):
                 chk.machinery("vacuous: no %s edge for kind %s" % (need, kind))
@@ -148,4 +201,6 @@ def main(chk):
              checker_cmd="tlc Generative.tla (VIEW View, ACTION_CONSTRAINT Emit)"),
         assumptions=["compile-only on postgresql/mysql/mssql/oracle (no execution); documented CompileError outcomes count as the SQL",
                      "each generative method is called with one fixed argument list",
-                     "bounded: <= %d nodes per tree, each method at most %d time(s) per derivation" % (max(p[4] for p in plans), max(p[6] for p in plans))])
+                     "bounded: <= %d nodes per tree, each method at most %d time(s) per derivation" % (max(p[4] for p in plans), max(p[6] for p in plans)),
+                     "pre-step runs: root built with methods already applied, Memo(n) = reading exported_columns / dialect_options / cache key, "
+                     "deep clones through cloned_traverse and a ClauseAdapter that replaces nothing"])
